@@ -25,3 +25,14 @@ Theorem C06_example :
   lookup_st st 150000000014 = Some 12 /\ lookup_st st 150000000015 = None /\ lookup_st st 150000000021 = Some 14.
 Proof. exact refinement_example. Qed.
 Print Assumptions C06_example.
+
+(* the same for histories of block calls with any number of blocks per call (rf_write_blocks),
+   chunked layouts: together with Properties/C07.v (un-chunked layout: one full block per file) this
+   covers every layout the writer produces *)
+From DRF Require Import Proofs.WriterMultiIdx Proofs.WriterMulti.
+
+Theorem C06_index_invariants_blocks_chunked : forall c ops, vcfg c -> c_chunk c = true ->
+  Forall (fun op => first_nonneg (fst op)) ops ->
+  Forall (C06_file c) (all_files (fold_left (model_step_blocks c) ops init_state)).
+Proof. exact reachable_files_C06_blocks. Qed.
+Print Assumptions C06_index_invariants_blocks_chunked.
